@@ -142,24 +142,14 @@ class Executor:
                 )
 
             # 2. Run the operations as they become eligible for execution.
-            should_stop = False
             self._ready_to_run.load(plan.initial_ops)
             with SigchldHelper.instance().track():
-                while self._ready_to_run.has_ops() or len(self._inflight_ops) > 0:
-                    should_stop = self._launch_ops_if_able(ctx, stop_on_first_error)
-                    if should_stop:
-                        break
-
-                    if len(self._inflight_ops) == 0:
-                        # There may be no in-flight ops if the last ready-to-run
-                        # op failed or was skipped.
-                        continue
-
-                    should_stop = self._wait_for_next_inflight_op(
-                        ctx, stop_on_first_error
-                    )
-                    if should_stop:
-                        break
+                # N.B. The loop lives in its own method on purpose. CPython
+                # does not cover a loop's back-edge jump with the enclosing
+                # `with`/`try` handlers, so an abort (raised by our signal
+                # handler) that lands exactly there would bypass the cleanup
+                # below and leave the running tasks alive.
+                self._run_ops_until_done(ctx, stop_on_first_error)
 
             # Only has an effect if we exited the loop above early due to
             # encountering an error.
@@ -178,6 +168,21 @@ class Executor:
             )
             print()
             raise
+
+    def _run_ops_until_done(self, ctx: Context, stop_on_first_error: bool) -> None:
+        while self._ready_to_run.has_ops() or len(self._inflight_ops) > 0:
+            should_stop = self._launch_ops_if_able(ctx, stop_on_first_error)
+            if should_stop:
+                break
+
+            if len(self._inflight_ops) == 0:
+                # There may be no in-flight ops if the last ready-to-run
+                # op failed or was skipped.
+                continue
+
+            should_stop = self._wait_for_next_inflight_op(ctx, stop_on_first_error)
+            if should_stop:
+                break
 
     def _reset(self) -> None:
         self._ready_to_run.clear()
